@@ -42,6 +42,7 @@ type loopInfo struct {
 }
 
 type FnCtx struct {
+	entryLocks map[string]string // lock arrays at entry for locks declared `entry-held`
 	lazyAx           map[*Axiom]int
 	eng              *Engine
 	fn               *ssa.Function
@@ -761,6 +762,9 @@ func (fx *FnCtx) step(st *State, fr *callFrame, ins ssa.Instruction) {
 		}
 		l := st.ptrLoc(x.Addr)
 		fx.checkFrameStore(st, l)
+		if !l.Mem {
+			fx.guardedAccess(st, l.className(), l.Ref, true)
+		}
 		v := st.val(x.Val)
 		if kindOf(l.T) == KArr && !l.Mem {
 			st.storeLoc(l, v)
@@ -915,7 +919,11 @@ func (fx *FnCtx) unop(st *State, x *ssa.UnOp) {
 		if !l.Mem && v.K == KInt {
 			vv := *v
 			vv.Org = "field " + l.className()
+			vv.Owner = l.Ref
 			v = &vv
+		}
+		if !l.Mem {
+			fx.guardedAccess(st, l.className(), l.Ref, false)
 		}
 		if g, ok := x.X.(*ssa.Global); ok && !strings.HasPrefix(g.Pkg.Pkg.Path(), modulePath) && v.K == KInt {
 			if _, isPtr := g.Type().(*types.Pointer).Elem().Underlying().(*types.Pointer); isPtr {
